@@ -20,7 +20,8 @@ open Spec
 def ItemsOK (P : Params) (cfg : Cfg) (g : Getter) (d : Nat) (its : List Item) (init res : Val) : Prop :=
   (∀ l, Item.leaf l ∈ its → ambiguous g.src (keyed g l) = true ∨
       ∃ e ∈ (expect P cfg g.src init (keyed g l)).oks, holds init res (keyed g l) e = true) ∧
-  (∀ n, Item.node n ∈ its → d + n.depth ≤ cfg.maxDepth)
+  (∀ n, Item.node n ∈ its → d + n.depth ≤ cfg.maxDepth) ∧
+  (∀ f, Item.frame f ∈ its → holdsFrame init res f = true)
 
 /-- the error is one the oracle admits for some item -/
 def ItemsErr (P : Params) (cfg : Cfg) (g : Getter) (d : Nat) (its : List Item) (init : Val) (e : Err) : Prop :=
@@ -34,11 +35,11 @@ theorem lemma_itemsOK_append (P : Params) (cfg : Cfg) (g : Getter) (d : Nat) (a 
   unfold ItemsOK
   simp only [List.mem_append]
   constructor
-  · rintro ⟨h1, h2⟩
-    exact ⟨⟨fun l hl => h1 l (Or.inl hl), fun n hn => h2 n (Or.inl hn)⟩,
-           ⟨fun l hl => h1 l (Or.inr hl), fun n hn => h2 n (Or.inr hn)⟩⟩
-  · rintro ⟨⟨h1, h2⟩, ⟨h3, h4⟩⟩
-    exact ⟨fun l hl => hl.elim (h1 l) (h3 l), fun n hn => hn.elim (h2 n) (h4 n)⟩
+  · rintro ⟨h1, h2, h3⟩
+    exact ⟨⟨fun l hl => h1 l (Or.inl hl), fun n hn => h2 n (Or.inl hn), fun f hf => h3 f (Or.inl hf)⟩,
+           ⟨fun l hl => h1 l (Or.inr hl), fun n hn => h2 n (Or.inr hn), fun f hf => h3 f (Or.inr hf)⟩⟩
+  · rintro ⟨⟨h1, h2, h3⟩, ⟨h4, h5, h6⟩⟩
+    exact ⟨fun l hl => hl.elim (h1 l) (h4 l), fun n hn => hn.elim (h2 n) (h5 n), fun f hf => hf.elim (h3 f) (h6 f)⟩
 
 theorem lemma_itemsErr_left (P : Params) (cfg : Cfg) (g : Getter) (d : Nat) (a b : List Item) (init : Val) (e : Err)
     (h : ItemsErr P cfg g d a init e) : ItemsErr P cfg g d (a ++ b) init e := by
@@ -140,7 +141,7 @@ theorem lemma_leaf_core (g : Getter) (d k : Nat) (h : FieldHdr) (t : Ty) (p : By
   cases o with
   | inl rv =>
     intro init res hi hr
-    refine ⟨?_, by simp⟩
+    refine ⟨?_, by simp, by simp⟩
     intro l hl
     simp only [List.mem_singleton, Item.leaf.injEq] at hl
     subst hl
@@ -169,10 +170,20 @@ theorem lemma_leaf_core (g : Getter) (d k : Nat) (h : FieldHdr) (t : Ty) (p : By
 
 /-- the items of a leaf-typed field -/
 def leafItems (k : Nat) (h : FieldHdr) (t : Ty) : List Item :=
-  if !h.exported then []
+  if !h.exported then [.frame { path := [k], ty := t }]
   else match tagNames (h.tag tag) h.name (tag == .form) with
-    | none => []
+    | none => [.frame { path := [k], ty := t }]
     | some (p, as) => [.leaf (leafAt k h t p as)]
+
+/-- a field the bind leaves alone -/
+theorem lemma_fldspec_frame (g : Getter) (d k : Nat) (t : Ty) (iv : Val) :
+    FldSpec P cfg g d k [.frame { path := [k], ty := t }] iv (.inl iv) := by
+  intro init res hi hr
+  refine ⟨by simp, by simp, ?_⟩
+  intro f hf
+  simp only [List.mem_singleton, Item.frame.injEq] at hf
+  subst hf
+  simp [holdsFrame, lemma_valAt_one init k iv hi, lemma_valAt_one res k iv hr]
 
 theorem lemma_leaf_fld_aux (g : Getter) (d k : Nat) (h : FieldHdr) (t : Ty) (iv : Val) (hex : h.exported = true)
     (hLeaf : ∀ f l, LeafLink P g f l → f.ty = t → l.ty = t →
@@ -186,8 +197,7 @@ theorem lemma_leaf_fld_aux (g : Getter) (d k : Nat) (h : FieldHdr) (t : Ty) (iv 
   | none =>
     rw [htn] at link
     simp only [link]
-    intro init res _ _
-    exact lemma_itemsOK_nil P cfg g d _ _
+    exact lemma_fldspec_frame P cfg g d k t iv
   | some pa =>
     obtain ⟨p, as⟩ := pa
     rw [htn] at link
@@ -253,14 +263,14 @@ theorem lemma_leaf_fld (hP : FloatSane P) (g : Getter) (hs : srcOK g.src = true)
 /-! ### moving between a struct and the value of one of its struct fields -/
 
 /-- how the initial value of the enclosing struct relates to the initial value `init'` the
-    sub-struct was bound from, leaf by leaf: the same, or nothing (nil pointer) where `init'` is a
-    freshly allocated zero value -/
+    sub-struct was bound from, place by place (leaves and frames): the same, or nothing (nil
+    pointer) where `init'` is a freshly allocated zero value -/
 def InitRel (Init : List Val) (k : Nat) (init' : Val) (its : List Item) : Prop :=
-  ∀ l, Item.leaf l ∈ its → valAt (.struct Init) (k :: l.path) = valAt init' l.path ∨
-    (valAt (.struct Init) (k :: l.path) = none ∧ (valAt init' l.path = none ∨ valAt init' l.path = some (zero l.ty)))
+  ∀ x ∈ its, ∀ pt, x.pathTy = some pt → valAt (.struct Init) (k :: pt.1) = valAt init' pt.1 ∨
+    (valAt (.struct Init) (k :: pt.1) = none ∧ (valAt init' pt.1 = none ∨ valAt init' pt.1 = some (zero pt.2)))
 
 def ResRel (Res : List Val) (k : Nat) (res' : Val) (its : List Item) : Prop :=
-  ∀ l, Item.leaf l ∈ its → valAt (.struct Res) (k :: l.path) = valAt res' l.path
+  ∀ x ∈ its, ∀ pt, x.pathTy = some pt → valAt (.struct Res) (k :: pt.1) = valAt res' pt.1
 
 theorem lemma_keyed_under (g : Getter) (k : Nat) (l : Leaf) :
     keyed g (l.under k) = { keyed g l with path := k :: (keyed g l).path, names := (keyed g l).names } := rfl
@@ -277,19 +287,20 @@ theorem lemma_under_ok (g : Getter) (d k : Nat) (its : List Item) (Init Res : Li
     (hi : InitRel Init k init' its) (hr : ResRel Res k res' its)
     (h : ItemsOK P cfg g d its init' res') :
     ItemsOK P cfg g d (its.map (Item.under k)) (.struct Init) (.struct Res) := by
-  obtain ⟨h1, h2⟩ := h
-  constructor
+  obtain ⟨h1, h2, h3⟩ := h
+  refine ⟨?_, ?_, ?_⟩
   · intro l hl
     simp only [List.mem_map] at hl
     obtain ⟨x, hx, hxl⟩ := hl
     cases x with
     | node n => simp [Item.under] at hxl
+    | frame f => simp [Item.under] at hxl
     | leaf l0 =>
       simp only [Item.under, Item.leaf.injEq] at hxl
       subst hxl
       rw [lemma_keyed_under, lemma_amb_path]
       have ht := lemma_transfer P cfg g.src (keyed g l0) k (keyed g l0).names (.struct Init) (.struct Res) init' res'
-        (hr l0 hx) (hi l0 hx)
+        (hr _ hx (l0.path, l0.ty) rfl) (hi _ hx (l0.path, l0.ty) rfl)
       rcases h1 l0 hx with h | ⟨e, he, hh⟩
       · exact Or.inl h
       · exact Or.inr ⟨e, by rw [ht.1]; exact he, ht.2 e hh⟩
@@ -298,10 +309,22 @@ theorem lemma_under_ok (g : Getter) (d k : Nat) (its : List Item) (Init Res : Li
     obtain ⟨x, hx, hxl⟩ := hn
     cases x with
     | leaf l0 => simp [Item.under] at hxl
+    | frame f => simp [Item.under] at hxl
     | node n0 =>
       simp only [Item.under, Item.node.injEq] at hxl
       subst hxl
       exact h2 n0 hx
+  · intro f hf
+    simp only [List.mem_map] at hf
+    obtain ⟨x, hx, hxl⟩ := hf
+    cases x with
+    | leaf l0 => simp [Item.under] at hxl
+    | node n0 => simp [Item.under] at hxl
+    | frame f0 =>
+      simp only [Item.under, Item.frame.injEq] at hxl
+      subst hxl
+      exact lemma_transfer_frame f0 k (.struct Init) (.struct Res) init' res'
+        (hr _ hx (f0.path, f0.ty) rfl) (hi _ hx (f0.path, f0.ty) rfl) (h3 f0 hx)
 
 theorem lemma_under_err (g : Getter) (d k : Nat) (its : List Item) (Init : List Val) (init' : Val) (e : Err)
     (hi : InitRel Init k init' its) (h : ItemsErr P cfg g d its init' e) :
@@ -310,29 +333,29 @@ theorem lemma_under_err (g : Getter) (d k : Nat) (its : List Item) (Init : List 
   · left
     refine ⟨l.under k, List.mem_map.2 ⟨.leaf l, hl, rfl⟩, c, hc, ?_⟩
     rw [lemma_keyed_under, lemma_amb_path]
-    rw [lemma_transfer_expect P cfg g.src (keyed g l) k (keyed g l).names (.struct Init) init' (hi l hl)]
+    rw [lemma_transfer_expect P cfg g.src (keyed g l) k (keyed g l).names (.struct Init) init' (hi _ hl (l.path, l.ty) rfl)]
     exact hh
   · right
     exact ⟨n, List.mem_map.2 ⟨.node n, hn, rfl⟩, hd, he⟩
-
 
 theorem lemma_below_ok (g : Getter) (d k : Nat) (name p : Bytes) (its : List Item) (Init Res : List Val) (init' res' : Val)
     (hi : InitRel Init k init' its) (hr : ResRel Res k res' its) (hd : d + 1 ≤ cfg.maxDepth)
     (h : ItemsOK P cfg (g.push p) (d + 1) its init' res') :
     ItemsOK P cfg g d (.node { names := [name], depth := 1 } :: its.map (Item.below k name p)) (.struct Init) (.struct Res) := by
-  obtain ⟨h1, h2⟩ := h
-  constructor
+  obtain ⟨h1, h2, h3⟩ := h
+  refine ⟨?_, ?_, ?_⟩
   · intro l hl
     simp only [List.mem_cons, reduceCtorEq, false_or, List.mem_map] at hl
     obtain ⟨x, hx, hxl⟩ := hl
     cases x with
     | node n => simp [Item.below] at hxl
+    | frame f => simp [Item.below] at hxl
     | leaf l0 =>
       simp only [Item.below, Item.leaf.injEq] at hxl
       subst hxl
       rw [lemma_keyed_below, lemma_amb_path]
       have ht := lemma_transfer P cfg g.src (keyed (g.push p) l0) k (name :: l0.names) (.struct Init) (.struct Res) init' res'
-        (hr l0 hx) (hi l0 hx)
+        (hr _ hx (l0.path, l0.ty) rfl) (hi _ hx (l0.path, l0.ty) rfl)
       rcases h1 l0 hx with h | ⟨e, he, hh⟩
       · exact Or.inl h
       · exact Or.inr ⟨e, by rw [ht.1]; exact he, ht.2 e hh⟩
@@ -342,12 +365,24 @@ theorem lemma_below_ok (g : Getter) (d k : Nat) (name p : Bytes) (its : List Ite
     · exact hd
     · cases x with
       | leaf l0 => simp [Item.below] at hxl
+      | frame f => simp [Item.below] at hxl
       | node n0 =>
         simp only [Item.below, Item.node.injEq] at hxl
         subst hxl
         have := h2 n0 hx
         simp only
         omega
+  · intro f hf
+    simp only [List.mem_cons, reduceCtorEq, false_or, List.mem_map] at hf
+    obtain ⟨x, hx, hxl⟩ := hf
+    cases x with
+    | leaf l0 => simp [Item.below] at hxl
+    | node n0 => simp [Item.below] at hxl
+    | frame f0 =>
+      simp only [Item.below, Item.frame.injEq] at hxl
+      subst hxl
+      exact lemma_transfer_frame f0 k (.struct Init) (.struct Res) init' res'
+        (hr _ hx (f0.path, f0.ty) rfl) (hi _ hx (f0.path, f0.ty) rfl) (h3 f0 hx)
 
 theorem lemma_below_err (g : Getter) (d k : Nat) (name p : Bytes) (its : List Item) (Init : List Val) (init' : Val) (e : Err)
     (hi : InitRel Init k init' its) (h : ItemsErr P cfg (g.push p) (d + 1) its init' e) :
@@ -357,46 +392,47 @@ theorem lemma_below_err (g : Getter) (d k : Nat) (name p : Bytes) (its : List It
     refine ⟨l.below k name p, List.mem_cons_of_mem _ (List.mem_map.2 ⟨.leaf l, hl, rfl⟩), c, ?_, ?_⟩
     · rw [hc]; rfl
     · rw [lemma_keyed_below, lemma_amb_path,
-        lemma_transfer_expect P cfg g.src (keyed (g.push p) l) k (name :: l.names) (.struct Init) init' (hi l hl)]
+        lemma_transfer_expect P cfg g.src (keyed (g.push p) l) k (name :: l.names) (.struct Init) init' (hi _ hl (l.path, l.ty) rfl)]
       exact hh
   · right
     refine ⟨{ names := name :: n.names, depth := n.depth + 1 },
       List.mem_cons_of_mem _ (List.mem_map.2 ⟨.node n, hn, rfl⟩), by simp only; omega, ?_⟩
     rw [he]; rfl
 
-
-theorem lemma_items_paths (sub : List Fld) (l : Leaf) (hl : Item.leaf l ∈ itemsFs tag 0 sub) :
-    (∃ a r, l.path = a :: r) ∧ ZeroLike (.struct (zeroFs sub)) l := by
-  obtain ⟨j, q, hq, hz⟩ := lemma_zero_fs tag sub 0 l hl
-  exact ⟨⟨_, _, hq⟩, hz (zeroFs sub) (fun j => by simp)⟩
+/-- every place of the items of a struct: non-empty path, zero-like in the zero struct -/
+theorem lemma_items_paths (sub : List Fld) (x : Item) (hx : x ∈ itemsFs tag 0 sub) (pt : List Nat × Ty)
+    (hpt : x.pathTy = some pt) :
+    (∃ a r, pt.1 = a :: r) ∧ ZeroLikeAt (.struct (zeroFs sub)) pt.1 pt.2 := by
+  obtain ⟨q, hq, ⟨a, r, hne⟩, hz⟩ := lemma_zero_fs tag sub 0 x hx pt hpt
+  exact ⟨⟨a, r, by rw [hq, hne]⟩, hz (zeroFs sub) (fun j => by simp)⟩
 
 theorem lemma_initrel_same (Init : List Val) (k : Nat) (v : Val) (its : List Item) (hk : Init[k]? = some v) :
-    InitRel Init k v its := fun l _ => Or.inl (lemma_valAt_cons Init k l.path v hk)
+    InitRel Init k v its := fun _ _ pt _ => Or.inl (lemma_valAt_cons Init k pt.1 v hk)
 
 theorem lemma_initrel_ptr (Init : List Val) (k : Nat) (v : Val) (its : List Item) (hk : Init[k]? = some (.ptr v))
-    (hne : ∀ l, Item.leaf l ∈ its → ∃ a r, l.path = a :: r) : InitRel Init k v its := by
-  intro l hl
-  obtain ⟨a, r, hp⟩ := hne l hl
+    (hne : ∀ x ∈ its, ∀ pt, x.pathTy = some pt → ∃ a r, pt.1 = a :: r) : InitRel Init k v its := by
+  intro x hx pt hpt
+  obtain ⟨a, r, hp⟩ := hne x hx pt hpt
   left
-  rw [lemma_valAt_cons Init k l.path _ hk, hp, lemma_valAt_ptr]
+  rw [lemma_valAt_cons Init k pt.1 _ hk, hp, lemma_valAt_ptr]
 
 theorem lemma_initrel_nil (Init : List Val) (k : Nat) (init' : Val) (its : List Item) (hk : Init[k]? = some .nil)
-    (hz : ∀ l, Item.leaf l ∈ its → (∃ a r, l.path = a :: r) ∧ ZeroLike init' l) : InitRel Init k init' its := by
-  intro l hl
-  obtain ⟨⟨a, r, hp⟩, hzl⟩ := hz l hl
+    (hz : ∀ x ∈ its, ∀ pt, x.pathTy = some pt → (∃ a r, pt.1 = a :: r) ∧ ZeroLikeAt init' pt.1 pt.2) :
+    InitRel Init k init' its := by
+  intro x hx pt hpt
+  obtain ⟨⟨a, r, hp⟩, hzl⟩ := hz x hx pt hpt
   right
   refine ⟨?_, hzl⟩
-  rw [lemma_valAt_cons Init k l.path _ hk, hp, lemma_valAt_nil]
+  rw [lemma_valAt_cons Init k pt.1 _ hk, hp, lemma_valAt_nil]
 
 theorem lemma_resrel_same (Res : List Val) (k : Nat) (v : Val) (its : List Item) (hk : Res[k]? = some v) :
-    ResRel Res k v its := fun l _ => lemma_valAt_cons Res k l.path v hk
+    ResRel Res k v its := fun _ _ pt _ => lemma_valAt_cons Res k pt.1 v hk
 
 theorem lemma_resrel_ptr (Res : List Val) (k : Nat) (v : Val) (its : List Item) (hk : Res[k]? = some (.ptr v))
-    (hne : ∀ l, Item.leaf l ∈ its → ∃ a r, l.path = a :: r) : ResRel Res k v its := by
-  intro l hl
-  obtain ⟨a, r, hp⟩ := hne l hl
-  rw [lemma_valAt_cons Res k l.path _ hk, hp, lemma_valAt_ptr]
-
+    (hne : ∀ x ∈ its, ∀ pt, x.pathTy = some pt → ∃ a r, pt.1 = a :: r) : ResRel Res k v its := by
+  intro x hx pt hpt
+  obtain ⟨a, r, hp⟩ := hne x hx pt hpt
+  rw [lemma_valAt_cons Res k pt.1 _ hk, hp, lemma_valAt_ptr]
 
 /-! ### an embedded nil pointer none of whose promoted fields receives a value -/
 
@@ -405,6 +441,7 @@ def Untouched (g : Getter) : Item → Prop
   | .leaf l => (∃ a r, l.path = a :: r) ∧
       (ambiguous g.src (keyed g l) = true ∨ ∀ m0, none ∈ (expectV P cfg g.src (keyed g l) m0).oks)
   | .node _ => False
+  | .frame f => ∃ a r, f.path = a :: r
 
 theorem lemma_untouched_leaf (g : Getter) (hs : srcOK g.src = true) (pre : List Nat) (k : Nat) (h : FieldHdr) (t : Ty)
     (hleaf : leafTy t = true)
@@ -416,7 +453,11 @@ theorem lemma_untouched_leaf (g : Getter) (hs : srcOK g.src = true) (pre : List 
   · simp only [hex, Bool.not_true, Bool.false_eq_true, if_false] at hx hu
     have link := lemma_mkInfo_link P tag (pre ++ [k]) h t
     cases htn : tagNames (h.tag tag) h.name (tag == .form) with
-    | none => rw [htn] at hx; cases hx
+    | none =>
+      rw [htn] at hx
+      simp only [List.mem_singleton] at hx
+      subst hx
+      exact ⟨k, [], rfl⟩
     | some pa =>
       obtain ⟨p, as⟩ := pa
       rw [htn] at link hx
@@ -439,7 +480,9 @@ theorem lemma_untouched_leaf (g : Getter) (hs : srcOK g.src = true) (pre : List 
         · exact absurd h ha
         · exact h
   · have hex' : h.exported = false := by simpa using hex
-    simp [hex'] at hx
+    simp only [hex', Bool.not_false, if_true, List.mem_singleton] at hx
+    subst hx
+    exact ⟨k, [], rfl⟩
 
 theorem lemma_untouched_under (g : Getter) (k : Nat) (its : List Item) (h : ∀ x ∈ its, Untouched P cfg g x) :
     ∀ x ∈ its.map (Item.under k), Untouched P cfg g x := by
@@ -450,6 +493,7 @@ theorem lemma_untouched_under (g : Getter) (k : Nat) (its : List Item) (h : ∀ 
   have := h y hy
   cases y with
   | node n => exact this
+  | frame f => exact ⟨k, f.path, rfl⟩
   | leaf l =>
     obtain ⟨⟨a, r, hp⟩, h2⟩ := this
     exact ⟨⟨k, l.path, rfl⟩, h2⟩
@@ -471,7 +515,11 @@ theorem lemma_untouched_fld (g : Getter) (hs : srcOK g.src = true) (k : Nat) (h 
         simp only [han', Bool.false_eq_true, if_false] at hu ⊢
         have link := lemma_mkInfo_link P tag (pre ++ [k]) h (.struct sub)
         cases htn : tagNames (h.tag tag) h.name (tag == .form) with
-        | none => intro x hx; cases hx
+        | none =>
+          intro x hx
+          simp only [List.mem_singleton] at hx
+          subst hx
+          exact ⟨k, [], rfl⟩
         | some pa =>
           obtain ⟨p, as⟩ := pa
           rw [htn] at link
@@ -479,7 +527,11 @@ theorem lemma_untouched_fld (g : Getter) (hs : srcOK g.src = true) (k : Nat) (h 
           have := hu f (by simp [hmk])
           simp [wants, h4, isStructTy, structFields?] at this
     · have hex' : h.exported = false := by simpa using hex
-      simp [hex']
+      simp only [hex', Bool.not_false, if_true]
+      intro x hx
+      simp only [List.mem_singleton] at hx
+      subst hx
+      exact ⟨k, [], rfl⟩
   | .ptr (.struct sub), pre, hg, hu => by
     unfold flattenFld at hu
     unfold itemsFld
@@ -493,7 +545,11 @@ theorem lemma_untouched_fld (g : Getter) (hs : srcOK g.src = true) (k : Nat) (h 
         simp only [han', Bool.false_eq_true, if_false] at hu ⊢
         have link := lemma_mkInfo_link P tag (pre ++ [k]) h (.ptr (.struct sub))
         cases htn : tagNames (h.tag tag) h.name (tag == .form) with
-        | none => intro x hx; cases hx
+        | none =>
+          intro x hx
+          simp only [List.mem_singleton] at hx
+          subst hx
+          exact ⟨k, [], rfl⟩
         | some pa =>
           obtain ⟨p, as⟩ := pa
           rw [htn] at link
@@ -501,7 +557,11 @@ theorem lemma_untouched_fld (g : Getter) (hs : srcOK g.src = true) (k : Nat) (h 
           have := hu f (by simp [hmk])
           simp [wants, h4, isStructTy, structFields?] at this
     · have hex' : h.exported = false := by simpa using hex
-      simp [hex']
+      simp only [hex', Bool.not_false, if_true]
+      intro x hx
+      simp only [List.mem_singleton] at hx
+      subst hx
+      exact ⟨k, [], rfl⟩
   | .prim p, pre, hg, hu => by
     have : itemsFld tag k h (.prim p) = leafItems tag k h (.prim p) := by
       simp only [itemsFld, leafItems, leafAt]
@@ -565,16 +625,16 @@ def NestSpec (nest : Nest) (d : Nat) : Prop :=
     | .panic => False
 
 /-- the items of a nested (non-embedded) struct field -/
-def nestedItems (k : Nat) (h : FieldHdr) (nfs : List Fld) : List Item :=
+def nestedItems (k : Nat) (h : FieldHdr) (t : Ty) (nfs : List Fld) : List Item :=
   match tagNames (h.tag tag) h.name (tag == .form) with
-  | none => []
+  | none => [.frame { path := [k], ty := t }]
   | some (p, _) => .node { names := [h.name], depth := 1 } :: (itemsFs tag 0 nfs).map (Item.below k h.name p)
 
 theorem lemma_nested_fld (g : Getter) (hs : srcOK g.src = true) (d : Nat)
     (hn : d + 1 ≤ cfg.maxDepth → NestSpec P cfg tag nest (d + 1))
     (k : Nat) (h : FieldHdr) (nfs : List Fld) (isPtr : Bool) (iv : Val) (hg : inGrammarFs nfs = true)
     (hw : wt (if isPtr then .ptr (.struct nfs) else .struct nfs) iv = true) :
-    FldSpec P cfg g d k (nestedItems tag k h nfs) iv
+    FldSpec P cfg g d k (nestedItems tag k h (if isPtr then .ptr (.struct nfs) else .struct nfs) nfs) iv
       (refLeaf P cfg nest tag g d h (if isPtr then .ptr (.struct nfs) else .struct nfs) iv) := by
   have link := lemma_mkInfo_link P tag [] h (if isPtr then .ptr (.struct nfs) else .struct nfs)
   unfold nestedItems refLeaf
@@ -582,8 +642,7 @@ theorem lemma_nested_fld (g : Getter) (hs : srcOK g.src = true) (d : Nat)
   | none =>
     rw [htn] at link
     simp only [link]
-    intro init res _ _
-    exact lemma_itemsOK_nil P cfg g d _ _
+    exact lemma_fldspec_frame P cfg g d k _ iv
   | some pa =>
     obtain ⟨p, as⟩ := pa
     rw [htn] at link
@@ -619,12 +678,12 @@ theorem lemma_nested_fld (g : Getter) (hs : srcOK g.src = true) (d : Nat)
           cases iv with
           | nil =>
             refine ⟨zeroFs nfs, by simp [innerOf, zero], lemma_wts_zero nfs, fun Init hk => ?_⟩
-            exact lemma_initrel_nil Init k _ _ hk (fun l hl => lemma_items_paths tag nfs l hl)
+            exact lemma_initrel_nil Init k _ _ hk (fun x hx pt hpt => lemma_items_paths tag nfs x hx pt hpt)
           | ptr y =>
             cases y with
             | struct cs =>
               refine ⟨cs, rfl, by simpa [wt] using hw, fun Init hk => ?_⟩
-              exact lemma_initrel_ptr Init k _ _ hk (fun l hl => (lemma_items_paths tag nfs l hl).1)
+              exact lemma_initrel_ptr Init k _ _ hk (fun x hx pt hpt => (lemma_items_paths tag nfs x hx pt hpt).1)
             | _ => simp [wt] at hw
           | _ => simp [wt] at hw
       rw [hinner]
@@ -649,7 +708,7 @@ theorem lemma_nested_fld (g : Getter) (hs : srcOK g.src = true) (d : Nat)
           exact lemma_resrel_same res k nv _ hrv
         | true =>
           simp only [h4, if_true, rewrap] at hrv
-          exact lemma_resrel_ptr res k nv _ hrv (fun l hl => (lemma_items_paths tag nfs l hl).1)
+          exact lemma_resrel_ptr res k nv _ hrv (fun x hx pt hpt => (lemma_items_paths tag nfs x hx pt hpt).1)
 
 
 /-! ### the structural binder meets the oracle -/
@@ -662,8 +721,8 @@ def FsSpec (g : Getter) (d i : Nat) (its : List Item) (ivs : List Val) : List Va
   | .inr .panic => False
 
 theorem lemma_itemsFld_nested (k : Nat) (h : FieldHdr) (sub : List Fld) (hex : h.exported = true) (han : h.anon = false) :
-    itemsFld tag k h (.struct sub) = nestedItems tag k h sub ∧
-    itemsFld tag k h (.ptr (.struct sub)) = nestedItems tag k h sub := by
+    itemsFld tag k h (.struct sub) = nestedItems tag k h (.struct sub) sub ∧
+    itemsFld tag k h (.ptr (.struct sub)) = nestedItems tag k h (.ptr (.struct sub)) sub := by
   constructor <;>
   · simp only [itemsFld, nestedItems, hex, han, Bool.not_true, Bool.false_eq_true, if_false]
     cases tagNames (h.tag tag) h.name (tag == .form) <;> rfl
@@ -674,14 +733,10 @@ theorem lemma_itemsFld_embedded (k : Nat) (h : FieldHdr) (sub : List Fld) (hex :
   constructor <;> simp [itemsFld, hex, han]
 
 theorem lemma_itemsFld_unexported (k : Nat) (h : FieldHdr) (t : Ty) (hex : h.exported = false) :
-    itemsFld tag k h t = [] := by
+    itemsFld tag k h t = [.frame { path := [k], ty := t }] := by
   cases t with
   | ptr e => cases e <;> simp [itemsFld, hex]
   | _ => simp [itemsFld, hex]
-
-theorem lemma_fldspec_nil (g : Getter) (d k : Nat) (iv : Val) : FldSpec P cfg g d k [] iv (.inl iv) := by
-  intro init res _ _
-  exact lemma_itemsOK_nil P cfg g d _ _
 
 def embLift (wrap : Val → Val) : List Val ⊕ Stop → Val ⊕ Stop
   | .inl cs' => .inl (wrap (.struct cs'))
@@ -737,7 +792,7 @@ theorem lemma_ref_fld (hP : FloatSane P) (g : Getter) (hs : srcOK g.src = true) 
         exact lemma_nested_fld P cfg nest tag g hs d hn k h sub false iv hgs (by simpa using hw)
     · have hex' : h.exported = false := by simpa using hex
       simp only [hex', Bool.not_false, if_true, lemma_itemsFld_unexported tag k h _ hex']
-      exact lemma_fldspec_nil P cfg g d k iv
+      exact lemma_fldspec_frame P cfg g d k _ iv
   | .ptr (.struct sub), iv, hw, hg => by
     have hgs : inGrammarFs sub = true := by simpa [inGrammar] using hg
     unfold refFld
@@ -746,7 +801,7 @@ theorem lemma_ref_fld (hP : FloatSane P) (g : Getter) (hs : srcOK g.src = true) 
       by_cases han : h.anon = true
       · simp only [han, if_true]
         rw [(lemma_itemsFld_embedded tag k h sub hex han).2]
-        have hpaths := fun l hl => (lemma_items_paths tag sub l hl).1
+        have hpaths := fun x hx pt hpt => (lemma_items_paths tag sub x hx pt hpt).1
         cases iv with
         | ptr y =>
           cases y with
@@ -767,7 +822,7 @@ theorem lemma_ref_fld (hP : FloatSane P) (g : Getter) (hs : srcOK g.src = true) 
           · simp only [hany, if_true]
             have ih := lemma_ref_fs hP g hs d hn sub 0 (zeroFs sub) (lemma_wts_zero sub) hgs
             have := lemma_embedded_lift P cfg tag g d k sub (zeroFs sub) .nil Val.ptr
-              (fun Init hk => lemma_initrel_nil Init k _ _ hk (fun l hl => lemma_items_paths tag sub l hl))
+              (fun Init hk => lemma_initrel_nil Init k _ _ hk (fun x hx pt hpt => lemma_items_paths tag sub x hx pt hpt))
               (fun Res cs' hk => lemma_resrel_ptr Res k _ _ hk hpaths) _ ih
             cases hr : refFs P cfg nest tag g d sub (zeroFs sub) with
             | inl cs' => rw [hr] at this; simpa [embLift] using this
@@ -780,13 +835,14 @@ theorem lemma_ref_fld (hP : FloatSane P) (g : Getter) (hs : srcOK g.src = true) 
               simp only [List.any_eq_false] at hany'
               simpa using hany' f hf)
             intro init res hi hr
-            constructor
+            refine ⟨?_, ?_, ?_⟩
             · intro l hl
               simp only [List.mem_map] at hl
               obtain ⟨x, hx, hxl⟩ := hl
               have hux := hun x hx
               cases x with
               | node n => simp [Item.under] at hxl
+              | frame f => simp [Item.under] at hxl
               | leaf l0 =>
                 simp only [Item.under, Item.leaf.injEq] at hxl
                 subst hxl
@@ -811,7 +867,24 @@ theorem lemma_ref_fld (hP : FloatSane P) (g : Getter) (hs : srcOK g.src = true) 
               have hux := hun x hx
               cases x with
               | leaf l0 => simp [Item.under] at hxl
+              | frame f => simp [Item.under] at hxl
               | node n0 => exact absurd hux (by simp [Untouched])
+            · intro f hf
+              simp only [List.mem_map] at hf
+              obtain ⟨x, hx, hxl⟩ := hf
+              have hux := hun x hx
+              cases x with
+              | leaf l0 => simp [Item.under] at hxl
+              | node n0 => simp [Item.under] at hxl
+              | frame f0 =>
+                simp only [Item.under, Item.frame.injEq] at hxl
+                subst hxl
+                obtain ⟨a, r, hp⟩ := hux
+                have hvi : valAt (.struct init) (k :: f0.path) = none := by
+                  rw [lemma_valAt_cons init k f0.path _ hi, hp, lemma_valAt_nil]
+                have hvr : valAt (.struct res) (k :: f0.path) = none := by
+                  rw [lemma_valAt_cons res k f0.path _ hr, hp, lemma_valAt_nil]
+                simp [holdsFrame, hvi, hvr]
         | _ => simp [wt] at hw
       · have han' : h.anon = false := by simpa using han
         simp only [han', Bool.false_eq_true, if_false]
@@ -819,7 +892,7 @@ theorem lemma_ref_fld (hP : FloatSane P) (g : Getter) (hs : srcOK g.src = true) 
         exact lemma_nested_fld P cfg nest tag g hs d hn k h sub true iv hgs (by simpa using hw)
     · have hex' : h.exported = false := by simpa using hex
       simp only [hex', Bool.not_false, if_true, lemma_itemsFld_unexported tag k h _ hex']
-      exact lemma_fldspec_nil P cfg g d k iv
+      exact lemma_fldspec_frame P cfg g d k _ iv
   | .prim p, iv, hw, hg => by
     simp only [refFld]
     by_cases hex : h.exported = true
@@ -830,7 +903,7 @@ theorem lemma_ref_fld (hP : FloatSane P) (g : Getter) (hs : srcOK g.src = true) 
       exact lemma_leaf_fld P cfg nest tag hP g hs d k h _ (by simpa [inGrammar] using hg) iv hex
     · have hex' : h.exported = false := by simpa using hex
       simp only [hex', Bool.not_false, if_true, lemma_itemsFld_unexported tag k h _ hex']
-      exact lemma_fldspec_nil P cfg g d k iv
+      exact lemma_fldspec_frame P cfg g d k _ iv
   | .slice e, iv, hw, hg => by
     simp only [refFld]
     by_cases hex : h.exported = true
@@ -841,7 +914,7 @@ theorem lemma_ref_fld (hP : FloatSane P) (g : Getter) (hs : srcOK g.src = true) 
       exact lemma_leaf_fld P cfg nest tag hP g hs d k h _ (by simpa [inGrammar] using hg) iv hex
     · have hex' : h.exported = false := by simpa using hex
       simp only [hex', Bool.not_false, if_true, lemma_itemsFld_unexported tag k h _ hex']
-      exact lemma_fldspec_nil P cfg g d k iv
+      exact lemma_fldspec_frame P cfg g d k _ iv
   | .map e, iv, hw, hg => by
     simp only [refFld]
     by_cases hex : h.exported = true
@@ -852,7 +925,7 @@ theorem lemma_ref_fld (hP : FloatSane P) (g : Getter) (hs : srcOK g.src = true) 
       exact lemma_leaf_fld P cfg nest tag hP g hs d k h _ (by simpa [inGrammar] using hg) iv hex
     · have hex' : h.exported = false := by simpa using hex
       simp only [hex', Bool.not_false, if_true, lemma_itemsFld_unexported tag k h _ hex']
-      exact lemma_fldspec_nil P cfg g d k iv
+      exact lemma_fldspec_frame P cfg g d k _ iv
   | .ptr (.prim p), iv, hw, hg => by
     simp only [refFld]
     by_cases hex : h.exported = true
@@ -863,7 +936,7 @@ theorem lemma_ref_fld (hP : FloatSane P) (g : Getter) (hs : srcOK g.src = true) 
       exact lemma_leaf_fld P cfg nest tag hP g hs d k h _ (by simpa [inGrammar] using hg) iv hex
     · have hex' : h.exported = false := by simpa using hex
       simp only [hex', Bool.not_false, if_true, lemma_itemsFld_unexported tag k h _ hex']
-      exact lemma_fldspec_nil P cfg g d k iv
+      exact lemma_fldspec_frame P cfg g d k _ iv
   | .ptr (.ptr e), iv, hw, hg => by simp [inGrammar, leafTy] at hg
   | .ptr (.slice e), iv, hw, hg => by
     simp only [refFld]
@@ -875,7 +948,7 @@ theorem lemma_ref_fld (hP : FloatSane P) (g : Getter) (hs : srcOK g.src = true) 
       exact lemma_leaf_fld P cfg nest tag hP g hs d k h _ (by simpa [inGrammar] using hg) iv hex
     · have hex' : h.exported = false := by simpa using hex
       simp only [hex', Bool.not_false, if_true, lemma_itemsFld_unexported tag k h _ hex']
-      exact lemma_fldspec_nil P cfg g d k iv
+      exact lemma_fldspec_frame P cfg g d k _ iv
   | .ptr (.map e), iv, hw, hg => by
     simp only [refFld]
     by_cases hex : h.exported = true
@@ -886,7 +959,7 @@ theorem lemma_ref_fld (hP : FloatSane P) (g : Getter) (hs : srcOK g.src = true) 
       exact lemma_leaf_fld P cfg nest tag hP g hs d k h _ (by simpa [inGrammar] using hg) iv hex
     · have hex' : h.exported = false := by simpa using hex
       simp only [hex', Bool.not_false, if_true, lemma_itemsFld_unexported tag k h _ hex']
-      exact lemma_fldspec_nil P cfg g d k iv
+      exact lemma_fldspec_frame P cfg g d k _ iv
 theorem lemma_ref_fs (hP : FloatSane P) (g : Getter) (hs : srcOK g.src = true) (d : Nat)
     (hn : d + 1 ≤ cfg.maxDepth → NestSpec P cfg tag nest (d + 1)) :
     ∀ (fs : List Fld) (i : Nat) (ivs : List Val), wts fs ivs = true → inGrammarFs fs = true →
